@@ -1353,7 +1353,7 @@ func TestVerifC19(t *testing.T) {
 			"a subnet file that parses but contains an unusable subnet or no generation is 'loaded without error' (judged only against a fresh selector built from the same file)",
 			"GeoIP with real MaxMind databases is not exercised (no database in the sandbox); only unset / empty / missing / unreadable paths",
 			"probe addresses are taken from documentation / private ranges; with covert_blocklist_public_addrs=true the machine's interface addresses enter the blocklist, which can only add refusals (never judged as a violation)",
-			"phantom subnet files with weight 0 (Select panics in crypto/rand.Int) are not generated: selection is C12/C14's subject"},
+			"phantom subnet files with weight 0 are not generated (selection with a zero total weight panicked before fix ee8285a; it is C14's subject)"},
 	})
 }
 
